@@ -66,6 +66,21 @@ def _value_error_through_parser(f):
     return "ValueError" in (f.get("mro") or [f.get("cls")]) and "parse" in (f.get("stack") or [])
 
 
+def C13_fill_matrix_overflow(case, params):
+    """a lattice FILL whose range or entry is an integer beyond 64 bits: numpy's OverflowError (an ArithmeticError,
+    not among the classes parse_input converts) comes out of Fill._parse_matrix"""
+    f = _f(case)
+    if f.get("kind") not in ("leak", "check-raises") or f.get("cls") != "OverflowError" or f.get("func") != "_parse_matrix":
+        return False
+    card = _matching(case, f)
+    if card is None:
+        return False
+    body = _data_part(_card_text(case, card))
+    if not re.search(r"(?i)fill", body) or not re.search(r"\d{19,}", body):
+        return False
+    return _gone_without(card, f, "without_check" if f.get("kind") == "check-raises" else "without")
+
+
 def _read_cards(text):
     """the read inputs of the file: [(text of the card's first line, has a file parameter)]"""
     out = []
